@@ -118,6 +118,45 @@ func r12b(c *core.Ctx) {
 	// cond is true only via a scan of the QUERY's additionals for type OPT
 	okScan := false
 	desc := strings.Join(truthConds(cond), " OR ")
+	// `found != nil` where found is the header of the OPT record the scan met (nil when none)
+	if cm, isCmp := core.CmpOf(cond); isCmp && cm.Op == "==" && cm.Neg && !okScan {
+		var ptr ssa.Value
+		if core.IsNilConst(cm.XV) {
+			ptr = cm.YV
+		} else if core.IsNilConst(cm.YV) {
+			ptr = cm.XV
+		}
+		if p0, isPhi := ptr.(*ssa.Phi); isPhi {
+			okScan = true
+			seen := map[*ssa.Phi]bool{}
+			var walk func(phi *ssa.Phi)
+			walk = func(phi *ssa.Phi) {
+				if seen[phi] {
+					return
+				}
+				seen[phi] = true
+				for i, e := range phi.Edges {
+					switch {
+					case core.IsNilConst(e):
+					default:
+						if p2, isPhi := e.(*ssa.Phi); isPhi {
+							walk(p2)
+							continue
+						}
+						pred := phi.Block().Preds[i]
+						call, isCall := e.(*ssa.Call)
+						if !isCall || !call.Call.IsInvoke() || call.Call.Method.Name() != "Hdr" || !hasCond(pred, ".Hdr().Type == 41)", true) {
+							okScan = false
+						}
+						if !strings.Contains(core.Expr(e), "m.Additionals") && !rangesOver(hm, pred, "m.Additionals") {
+							okScan = false
+						}
+					}
+				}
+			}
+			walk(p0)
+		}
+	}
 	if phi0, ok := cond.(*ssa.Phi); ok {
 		okScan = true
 		// the flag may be carried around the scan loop (phi of phis): every leaf is a constant, and `true` enters only
